@@ -325,8 +325,15 @@ def run_shard(spec, shard):
                 case.update(q="$.a" + ws, doc={"a": 1})          # a control character: not a valid query
             else:
                 case.update(q="$.a" + ws, doc={"a": 1, name: 2})  # a name character: selects the other member
-        elif k < 0.8:
+        elif k < 0.79:
             case.update(q=r.choice(["$", "$.a", "$..a"]), doc_text='{"a": %s, "b": [1]}' % ("7" * r.choice([4300, 4301, 5000])))
+        elif k < 0.8:
+            # number literals that overflow a double are grammatical JSON; so are queries of thousands of segments
+            if r.random() < 0.5:
+                case.update(q=r.choice(["$", "$.a", "$.b[*]", "$[?@ > 1]", "$..*"]), doc_text=r.choice(['{"a": 1e400, "b": [1, 2.5]}', '{"a": [-1e999, 1e999], "b": [0]}', "[1e400]"]))
+            else:
+                n = r.choice([400, 1500, 3000])
+                case.update(q="$" + r.choice(["[0]", ".a", "[*]"]) * n, doc=r.choice([[[1]], {"a": {"a": 1}}, [1, 2]]))
         elif k < 0.82:
             d = r.choice([200, 400, 3000])
             case.update(q="$[?" + "(" * d + "@.a" + ")" * d + "]", doc=[{"a": 1}, {}])
